@@ -227,6 +227,8 @@ def check_uses(fn, uses, what):
 
 
 # ---------------------------------------------------------------- decompose_column
+import re
+GUARD_RE = re.compile(r'^all\(\[col\.index_plus\(start, d\) in straight for d in \(([0-9, ]+)\)\]\)$')
 DECOMP_GLUE = {
     'col = self.column[column_name]', 'nn = col.num_nodes', 'angles = col.interior_angles', 'tol = 0.001',
     'straight = [i for i, angle in enumerate(angles) if angle > np.pi - tol]', 'ns = len(straight)',
@@ -248,6 +250,7 @@ def read_decompose(fn):
     entries = []        # (nn, ns, d or None, rule, entry)
     thresholds = []
     fallbacks = []
+    guarded = []
 
     def ret(s, cond):
         v = s.value
@@ -259,7 +262,9 @@ def read_decompose(fn):
                 fallbacks.append(('fan', dict(cond))); return
             if v.func.attr == 'subdivide_column' and len(args) == 5 and args[0] == 'column_name' and args[3:] == ['chars', 'spaces'] and not v.keywords:
                 if 'nn' not in cond or 'ns' not in cond: raise Refusal('decompose_column %s: subdivision outside an (nn, ns) guard' % _where(s))
+                if cond.get('guard') and args[1] != 'start': raise Refusal('decompose_column %s: guarded subdivision with start %s' % (_where(s), args[1]))
                 if args[1] == 'straight[0]': rule = 'StraightFirst'
+                elif args[1] == 'start' and cond.get('guard'): rule = '(StartAfterGapIf [%s])' % '; '.join(map(str, cond['guard']))
                 elif args[1] == 'start': rule = 'StartAfterGap'
                 else: raise Refusal('decompose_column %s: unknown start expression %s' % (_where(s), args[1]))
                 try: lit = ast.literal_eval(v.args[2])
@@ -290,6 +295,17 @@ def read_decompose(fn):
                 elif isinstance(t, ast.Compare) and len(t.ops) == 1 and isinstance(t.ops[0], ast.Eq) and ast.unparse(t.left) == 'd' \
                         and isinstance(t.comparators[0], ast.Constant) and isinstance(t.comparators[0].value, int):
                     c2['d'] = t.comparators[0].value
+                elif GUARD_RE.match(txt):
+                    # the subdivision is used only if the straight nodes alternate from `start`; otherwise the fan
+                    if 'nn' not in cond or 'guard' in cond: raise Refusal('decompose_column %s: guard %s outside an (nn, ns) case' % (_where(s), txt))
+                    c2['guard'] = [int(x) for x in GUARD_RE.match(txt).group(1).split(',') if x.strip()]
+                    if not c2['guard'] or any(not 0 < d < cond['nn'] for d in c2['guard']): raise Refusal('decompose_column %s: guard %s' % (_where(s), txt))
+                    if len(s.orelse) != 1 or not isinstance(s.orelse[0], ast.Return) or \
+                            ast.unparse(s.orelse[0]) != 'return self.triangulate_column(column_name, chars, spaces)':
+                        raise Refusal('decompose_column %s: the alternative of %s is not triangulate_column' % (_where(s), txt))
+                    walk(s.body, c2)
+                    guarded.append(dict(cond))
+                    continue
                 elif txt in ('nn <= 4', 'nn <= 8'):
                     thresholds.append(txt)
                 else:
@@ -523,6 +539,17 @@ def translate(repo_file):
     d.append('\nLemma decompose_table_area_gen : dtable_area_ok decompose_table.\nProof.\n'
              '  intros nn ns d rule e H1. unfold decompose_table in H1. split_ins.\n'
              '  all: first [%s].\nQed.\n' % ' | '.join('exact %s' % n for n in dn))
+    # entries all of whose children contain the centre node: simple polygons for ANY position of the straight nodes
+    d.insert(1, 'From P Require Import Cross.\n')
+    sn = []
+    for nn, ns, dd, rule, e in r.decomp:
+        if all(any(v == ('c',) for v in ch) for ch in e):
+            nm = dkey_name(nn, ns, dd) + '_simple'; sn.append(nm)
+            d.append('Lemma %s : entry_simple_ok %d %s.\nProof. entry_simple_tac. Qed.\n' % (nm, nn, coq_entry(e)))
+    d.append('\nLemma decompose_table_simple_gen : forall nn ns d rule e, In ((nn, ns, d), rule, e) decompose_table ->\n'
+             '  all_centre e = true -> entry_simple_ok nn e.\nProof.\n'
+             '  intros nn ns d rule e H1 Hc. unfold decompose_table in H1. split_ins.\n'
+             '  all: first [discriminate Hc%s].\nQed.\n' % ''.join(' | exact %s' % n for n in sn))
     r.files['GenDecomp'] = ''.join(d)
     r.lemma_to_entry = {}
     for nn in r.table:
